@@ -9,7 +9,8 @@ MANIFEST = dict(
           "Proved for every token list: the loop terminates within |tokens|+1 iterations for any statement parser that consumes on success and never moves backwards; it reports at least one error exactly when Parser.Parse fails; "
           "on semicolon-separated segments satisfying the locality hypotheses of the property it returns precisely the trees of the well-formed segments in order and one error per malformed segment located in that segment. "
           "The tie is checked on every run: the real parseStatement is recorded from every cursor position, the Coq recover/sync are evaluated on that table and must reproduce the real recovery result and synchronize() from every position; "
-          "the progress hypotheses are measured on the real parseStatement; an implementation-side oracle compares ParseWithRecovery(S1;...;Sn) with Parse of each segment (n<=6, four corruption operators) and with Parse of the whole, plus token soup for termination and the iff clause."),
+          "the progress hypotheses are measured on the real parseStatement; an implementation-side oracle compares ParseWithRecovery(S1;...;Sn) with Parse of each segment (n<=6, four corruption operators) and with Parse of the whole, plus token soup for termination and the iff clause."
+          " C12_errors_located_in_own_segment: the token whose position an error carries (err_loc) lies between the first token of its statement and the terminator of that segment, no semicolon in between; tied by comparing every real error position with the position of token err_loc in the text that was passed in (harness-side token positions), under white-space layouts, with statements of every kind (MERGE, sub-queries, CTEs) as well-formed segments and keyword-like names after failure points."),
     note=common.BASE_NOTE + "The statement parser is abstract in the theorems; its progress/monotonicity hypotheses are measured on every recorded table (a violated hypothesis is reported).",
     design="6/C12")
 
